@@ -65,7 +65,7 @@ theorem pop_line_aligned (keepNl : Bool) (frags : List Bytes) (hal : aligned fra
 
 example : popStream true exChunks = specStream true exChunks.flatten := pop_line_aligned _ _ (by decide) (by decide)
 
-/-- Two line-aligned, NUL-free fragmentations of the same text mean the same. -/
+/-- Two line-aligned, NUL-free fragmentations of the same text mean the same. This is the PROVED-SAFE REGION of a property whose full statement is false (`not_fragmentation_independent`): a `…_partial` result in the sense of the framework's naming rule; the name is kept because other files cite it. -/
 theorem fragmentation_independent (f g : List Bytes) (hf : aligned f = true) (hg : aligned g = true)
     (nf : ∀ c ∈ f, noNul c = true) (ng : ∀ c ∈ g, noNul c = true) (h : f.flatten = g.flatten) :
     lexChunks f = lexChunks g := by
@@ -151,6 +151,17 @@ theorem crlf_eq_lf (max : Nat) (text : Bytes) : lineReader max (lfToCrlf text) =
 theorem crlf_eq_lf_tokens (keepNl : Bool) (max : Nat) (text : Bytes) :
     popStream keepNl (lineReader max (lfToCrlf text)) = popStream keepNl (lineReader max text) := by
   rw [crlf_eq_lf]
+
+/-- **CRLF ≠ LF through the interactive reader** (finding `C13.interactive_reader_keeps_cr`). `crlf_eq_lf` is a theorem
+about the readers that drop CR (StringReader, both ReadFile). `ReadInput::read` → `bloc_readstdin` (apps/cli_parser.cpp, the
+interactive loop when libreadline is not loaded) stores every byte: for the text `a;⏎b;⏎` with CRLF line ends its chunks give
+the parser a token 13 after each `;` that the LF text does not have — the CRLF clause of C13 is FALSE on that path.
+FULL STATEMENT (false): ∀ text, popStream k (stdinReader max (lfToCrlf text)) = popStream k (stdinReader max text). -/
+theorem crlf_through_stdin_reader_fails :
+    lfToCrlf [97, 59, 10, 98, 59, 10] = [97, 59, 13, 10, 98, 59, 13, 10] ∧
+    popStream true (stdinReader chunkMax [97, 59, 13, 10, 98, 59, 13, 10]) ≠ popStream true (stdinReader chunkMax [97, 59, 10, 98, 59, 10]) ∧
+    (⟨13, [13]⟩ : Tok) ∈ popStream true (stdinReader chunkMax [97, 59, 13, 10, 98, 59, 13, 10]) ∧
+    (⟨13, [13]⟩ : Tok) ∉ popStream true (stdinReader chunkMax [97, 59, 10, 98, 59, 10]) := by decide +kernel
 
 example : lfToCrlf exLines = [97, 32, 61, 32, 49, 50, 51, 13, 10, 98, 32, 61, 32, 34, 120, 34, 13, 10, 13, 10, 99] ∧
     lineReader 8 (lfToCrlf exLines) = lineReader 8 exLines := ⟨by decide, crlf_eq_lf 8 exLines⟩
@@ -330,7 +341,7 @@ example : ¬ lexChunks [[49, 101, 43], [53]] = lexWhole ([49, 101, 43] ++ [53]) 
 
 /-- **Any number of cuts.** Every chunk non-empty and NUL-free, no rule matching across the end of a chunk into the
 rest of the text, beginning-of-line immaterial at every cut: the chunked scanner gives the tokens of the whole text.
-(`lex_line_aligned` is the case in which every cut follows a '\n'.) -/
+(`lex_line_aligned` is the case in which every cut follows a '\n'.) This is the PROVED-SAFE REGION of a property whose full statement is false (`not_fragmentation_independent`): a `…_partial` result in the sense of the framework's naming rule; the name is kept because other files cite it. -/
 theorem lex_cuts_aligned (frags : List Bytes) (h : safeCuts frags = true) : lexChunks frags = lexWhole frags.flatten :=
   lexChunksFrom_safe frags .initial h
 
@@ -377,7 +388,7 @@ theorem unsafe_split_witnesses :
 
 /-- **One literal, any number of aligned chunks.** A string literal `"content"` whose content is plain (no `"`, no
 `\`, no NUL; line breaks — also runs of EMPTY lines, i.e. chunks that are just "\n" — are plain), delivered in any
-line-aligned fragmentation, reaches the parser as ONE `TOKEN_LITERALSTR` carrying every byte of it. -/
+line-aligned fragmentation, reaches the parser as ONE `TOKEN_LITERALSTR` carrying every byte of it. This is the PROVED-SAFE REGION of a property whose full statement is false (`not_fragmentation_independent`): a `…_partial` result in the sense of the framework's naming rule; the name is kept because other files cite it. -/
 theorem literal_across_chunks (keepNl : Bool) (frags : List Bytes) (content : Bytes) (hal : aligned frags = true)
     (hfl : frags.flatten = 34 :: content ++ [34]) (hp : content.all plainByte = true) :
     popStream keepNl frags = [⟨tLITERALSTR, 34 :: content ++ [34]⟩] := by
